@@ -97,6 +97,17 @@ func walkLocs(v reflect.Value, path string, out *[]pokeLoc, depth int) {
 			}
 			return
 		}
+		if v.Cap() > v.Len() && v.CanAddr() {
+			// spare capacity behind a returned slice: appending in place writes into whatever else shares the array
+			vv := v
+			*out = append(*out, pokeLoc{path + "/append-within-capacity", func() {
+				n := vv.Len()
+				vv.SetLen(n + 1)
+				if n > 0 {
+					vv.Index(n).Set(vv.Index(0))
+				}
+			}})
+		}
 		for i := 0; i < v.Len() && i < 4; i++ {
 			e := v.Index(i)
 			if e.Kind() == reflect.String {
@@ -115,6 +126,20 @@ func walkLocs(v reflect.Value, path string, out *[]pokeLoc, depth int) {
 		}
 		keys := v.MapKeys()
 		sort.Slice(keys, func(i, j int) bool { return fmt.Sprint(keys[i]) < fmt.Sprint(keys[j]) })
+		if v.Type().Key().Kind() == reflect.String && depth <= 2 {
+			// a NEW entry (also into an empty map - the result of a read that found nothing): the caller's map is the
+			// caller's alone
+			vv := v
+			*out = append(*out, pokeLoc{path + "/insert{new}", func() {
+				var nv reflect.Value
+				if len(keys) > 0 {
+					nv = vv.MapIndex(keys[0])
+				} else {
+					nv = reflect.Zero(vv.Type().Elem())
+				}
+				vv.SetMapIndex(reflect.ValueOf("~inserted").Convert(vv.Type().Key()), nv)
+			}})
+		}
 		for i, k := range keys {
 			if i >= 6 {
 				break
@@ -140,6 +165,8 @@ func pathKinds(p string) string {
 			out = append(out, "{k}")
 		case strings.HasPrefix(s, "delete{"):
 			out = append(out, "delete{k}")
+		case strings.HasPrefix(s, "insert{"):
+			out = append(out, "insert{k}")
 		case strings.HasPrefix(s, "[]byte"):
 			out = append(out, "[]byte[i]")
 		case strings.HasPrefix(s, "[]string"):
@@ -212,6 +239,20 @@ func c14SecondKey() val.Item {
 		o["h"] = val.Bin("\xf0\xf1")
 	default:
 		o["h"] = val.Num("4200")
+	}
+	return o
+}
+
+// a third key of the same table that is never written
+func c14MissingKey() val.Item {
+	o := c14Key.Clone()
+	switch c14Key["h"].K {
+	case val.KS:
+		o["h"] = val.Str("never-written")
+	case val.KB:
+		o["h"] = val.Bin("\xee\xee")
+	default:
+		o["h"] = val.Num("777")
 	}
 	return o
 }
@@ -439,6 +480,38 @@ func c14Ops() []c14Op {
 			}
 			return out.Attributes, exp, true
 		}},
+		{"output/GetItem(missing key)", func(ad string, cl adapt.Client, it val.Item) (interface{}, val.Item, bool) {
+			// a read that finds nothing returns an empty result the caller may fill (get-or-create)
+			miss := c14MissingKey()
+			miss["h"] = c14SecondKey()["h"]
+			if ad == "v1" {
+				out, err := cl.Raw().(*v1client.Client).GetItem(&v1ddb.GetItemInput{TableName: aws.String("tbl14"), Key: adapt.ItemToV1(miss)})
+				if err != nil || out.Item == nil {
+					return nil, nil, false
+				}
+				return out.Item, it, true
+			}
+			out, err := cl.Raw().(*v2client.Client).GetItem(ctx, &v2ddb.GetItemInput{TableName: v2aws.String("tbl14"), Key: adapt.ItemToV2(miss)})
+			if err != nil || out.Item == nil {
+				return nil, nil, false
+			}
+			return out.Item, it, true
+		}},
+		{"output/Query(no match).Items", func(ad string, cl adapt.Client, it val.Item) (interface{}, val.Item, bool) {
+			miss := c14MissingKey()
+			if ad == "v1" {
+				out, err := cl.Raw().(*v1client.Client).Query(&v1ddb.QueryInput{TableName: aws.String("tbl14"), KeyConditionExpression: aws.String("h = :h"), ExpressionAttributeValues: adapt.ItemToV1(val.Item{":h": miss["h"]})})
+				if err != nil {
+					return nil, nil, false
+				}
+				return &out.Items, it, true
+			}
+			out, err := cl.Raw().(*v2client.Client).Query(ctx, &v2ddb.QueryInput{TableName: v2aws.String("tbl14"), KeyConditionExpression: v2aws.String("h = :h"), ExpressionAttributeValues: adapt.ItemToV2(val.Item{":h": miss["h"]})})
+			if err != nil {
+				return nil, nil, false
+			}
+			return &out.Items, it, true
+		}},
 		{"output/DeleteItem.Attributes(other key)", func(ad string, cl adapt.Client, it val.Item) (interface{}, val.Item, bool) {
 			// the old image of a DELETED item is handed to the caller; the item that stays must not be reachable from it
 			second := c14SecondKey()
@@ -553,6 +626,10 @@ func readBack(cl adapt.Client) (val.Item, string) {
 	}
 	if len(s.Items) != 1 || !val.ItemsEqual(s.Items[0], g.Item) {
 		return g.Item, fmt.Sprintf("scan (%d items) and get disagree", len(s.Items))
+	}
+	// a key that was never written still has no item
+	if m := cl.Do(adapt.Op{Kind: adapt.OpGet, Table: "tbl14", Key: c14MissingKey()}); m.Class != adapt.ClsOK || len(m.Item) != 0 {
+		return g.Item, fmt.Sprintf("GetItem of a key that was never written returns (class %s) %s", m.Class, m.Item.Canon())
 	}
 	return g.Item, ""
 }
